@@ -64,6 +64,7 @@ type Facts struct {
 	LockSites        []map[string]any    `json:"lock_sites"`
 	WriterCalls      []map[string]any    `json:"writer_calls"`
 	TruncateSites    []string            `json:"truncate_sites"`
+	OpenSites        []string            `json:"open_sites"`
 	Sections         map[string][]string `json:"sections"`
 	LogNameUses      []string            `json:"log_name_uses"`
 	MapRanges        []map[string]any    `json:"map_ranges"`
@@ -460,6 +461,12 @@ func extractLockSites() {
 			// shrinking a file in place: lock-free readers may be in the middle of reading it, so every site is listed (and expected)
 			if se, ok := ce.Fun.(*ast.SelectorExpr); ok && se.Sel.Name == "Truncate" {
 				facts.TruncateSites = append(facts.TruncateSites, name+": "+src(ce))
+			}
+			// every call that opens, creates or renames a file, with its arguments as written: the flags (O_APPEND on the log, O_TRUNC on the
+			// temporary file, no O_TRUNC where a missing file is created) are what ErgoModel.Files' theorems rest on
+			switch f {
+			case "os.OpenFile", "os.WriteFile", "os.Create", "os.CreateTemp", "syscall.Open", "os.Rename", "os.Remove", "os.Truncate", "os.Link", "os.Symlink":
+				facts.OpenSites = append(facts.OpenSites, name+": "+src(ce))
 			}
 			switch f {
 			case "os.OpenFile", "os.Rename", "os.WriteFile", "os.Truncate", "os.Remove", "os.Create":
